@@ -441,6 +441,9 @@ def repeated_cases() -> list[tuple[str, int, bytes]]:
     # the same attribute code twice, AGGREGATOR + AS4_AGGREGATOR, communities of every kind
     out.append(('update:unknown-attribute-twice', UPDATE, update_with(A(0xC0, 99, b'\1') + A(0xC0, 99, b'\2'))))
     out.append(('update:aggregator-and-as4-aggregator', UPDATE, update_with(A(0xC0, 7, struct.pack('!H', 23456) + bytes([192, 0, 2, 200])) + A(0xC0, 18, struct.pack('!L', 70000) + bytes([192, 0, 2, 200])), asn4=False)))
+    # a NEW (4-byte) speaker has no reason to send AS4_AGGREGATOR next to its 8 octet AGGREGATOR, nothing stops it either (RFC 6793 6)
+    out.append(('update:aggregator8-and-as4-aggregator', UPDATE, update_with(A(0xC0, 7, struct.pack('!L', 65001) + bytes([192, 0, 2, 200])) + A(0xC0, 18, struct.pack('!L', 4200000000) + bytes([192, 0, 2, 201])))))
+    out.append(('update:aspath4-and-as4-path', UPDATE, update_with(A(0xC0, 17, rw.v_aspath([(2, [70000, 80000])], True)) + A(0xC0, 18, struct.pack('!L', 70000) + bytes([192, 0, 2, 200])))))
     out.append(('update:as4-aggregator-alone', UPDATE, update_with(A(0xC0, 18, struct.pack('!L', 70000) + bytes([192, 0, 2, 200])))))
     out.append(('update:as4-path-on-asn4-session', UPDATE, update_with(A(0xC0, 17, rw.v_aspath([(2, [70000])], True)))))
     out.append(('update:ext-communities-twice', UPDATE, update_with(A(0xC0, 16, bytes([0, 2]) + struct.pack('!HL', 65000, 1)) + A(0xC0, 16, bytes([0, 2]) + struct.pack('!HL', 65000, 2)))))
